@@ -6,4 +6,11 @@ ACTIONS = [
     ("cp_nometa", "d", "d3"), ("cp_nometa", "g", "g3"), ("reopen",), ("boundary",), ("set_unknown", "d"), ("keep", "g/e", "F"),
     ("rm", "g/e"), ("mk", "n"), ("set", "g", "F"), ("del", "g/e", "F"),
     ("cp_obj", "g", "/", "c"), ("cp_obj", "d", "g", "c"), ("rm_root",),
+    ("cp_src_obj", "g", "g4"), ("sub_cp", "g", "e", "e2"),
 ]
+
+
+def mirror_sels(drivers=("h5", "ih5")):
+    """Selectors of the extra partitions that start from the mirrored universe (g/g/e2 exists, g/e2 free)."""
+    firsts = [ACTIONS.index(("sub_cp", "g", "e", "e2")), ACTIONS.index(("cp", "g", "g2")), ACTIONS.index(("mv", "g", "h"))]
+    return [{"drv": d, "k": 2, "first": f, "init": 2} for d in drivers for f in firsts]
